@@ -201,6 +201,20 @@ CHECKS["C17"] = dict(
          "protocol limitation).",
     design="4/C17")
 
+CHECKS["C20"] = dict(
+    technique="model-based testing: generated timed bus histories replayed into the real drivers on a virtual-time loop; "
+              "callback streams compared with a reference watcher written from the property statement",
+    text="2 400 (quick) / 64 000 (thorough) generated histories of up to 8 foreign bus transactions (plain, query + "
+         "answer/silence/framing error, config sent twice/once/interrupted/answered, ENABLE DEVICE TYPE + extended command, "
+         "24-bit commands, events with and without instance map, unknown frames, stray backward frames) with gaps <= 0.1 s or "
+         ">= 0.3 s, interleaved own sends and 0-3 subscribers joining/leaving. Tridonic: every subscriber's callback stream "
+         "(command, response, error flag) must equal the reference watcher's output restricted to its subscription spans. "
+         "LUBA/SCI: every child queue receives each observed forward frame once, in order, decoded in the device-type "
+         "context of the immediately preceding ENABLE DEVICE TYPE. hasseb: own commands reported once each.",
+    note="Trusted: the reference watcher ref_watch in props/c20.py; harness/ref_wire.py report decoders; decoding itself is "
+         "delegated to dali.command.from_frame with the expected context (C01/C03 judge decoding).",
+    design="4/C20")
+
 NOT_BUILT_REASON = "check not built yet in this round (planned, see DESIGN.md section 4); not claimed until it is registered"
 
 
